@@ -400,8 +400,10 @@ pub fn run_c05(rep: &mut Report, tier: &str, seed: u64) -> Result<(), String> {
             // attribute values; whatever the first pass lets through, the second must take
             let r = *rng.pick(&["&amp;", "&#65;", "&#x10FFFF;", "&lt;", "&foo;", "&foo;", "&nbsp;"]);
             let pre = if r == "&foo;" || r == "&nbsp;" || rng.chance(1, 3) { "<!DOCTYPE svg [<!ENTITY foo \"bar\"><!ENTITY nbsp \"&#160;\">]>\n" } else { "" };
-            let inner = match rng.below(3) { 0 => format!("<rect width=\"2\" height=\"2\" fill=\"{r}\"/>"), 1 => format!("<desc>{r}</desc>"), _ => format!("<g data-a=\"x{r}\"><title>{r} t</title></g>") };
-            doc = format!("{pre}<svg>\n  <rect wh=\"5\" text=\"hi\"/>\n  <svg xmlns=\"http://www.w3.org/2000/svg\" viewBox=\"0 0 3 3\">{inner}</svg>\n  <desc>{r}</desc>\n</svg>");
+            // in an attribute value only, in character data only, or in both; inside the embedded subtree and / or after it
+            let inner = match rng.below(4) { 0 => format!("<rect width=\"2\" height=\"2\" fill=\"{r}\"/>"), 1 => format!("<desc>{r}</desc>"), 2 => format!("<g data-a=\"x{r}\"><title>t</title></g>"), _ => format!("<g data-a=\"x{r}\"><title>{r} t</title></g>") };
+            let after = match rng.below(3) { 0 => format!("\n  <desc>{r}</desc>"), 1 => format!("\n  <desc data-b=\"{r}\">d</desc>"), _ => String::new() };
+            doc = format!("{pre}<svg>\n  <rect wh=\"5\" text=\"hi\"/>\n  <svg xmlns=\"http://www.w3.org/2000/svg\" viewBox=\"0 0 3 3\">{inner}</svg>{after}\n</svg>");
             st.tally("references-in-copied-content");
         }
         else if i % 8 == 3 {
